@@ -54,6 +54,31 @@ CLAIMS = {
         "every call of the 8/16-digit vector routines passes a value below 10^8/10^16; (d) I64toa stores '-' and negates. NOT decided: end-to-end digit composition for all 2^64 values."),
   note='Trusted: clang 14 front end; Intel lane semantics of 13 SSE2 intrinsics in sv/sse_interp.py; exact-division theorem (Hacker\'s Delight 10-9).',
   design='5/C08'),
+ 'C06': dict(
+  category='proof',
+  technique='write-budget abstract interpretation over the CFG of SerializeImpl (E4: lower bound of reserved-but-unwritten bytes, affine in the string length, min-join, widening); dominance rules for error exits',
+  text=("Decides: (a) along every path of SerializeImpl (both node types, loops by fixpoint) each PushUnsafe / PushSizeUnsafe / Push5_8 and each writer called at wb.End() (Quote, U64toa, I64toa, F64toa) is covered by "
+        "the Grow/Reserve in force since the last consumption, using the callees' write contracts; (b) a non-positive F64toa result never reaches a push and the three error classes plus the kind-switch default reach a non-zero return without writing; "
+        "Dump returns ToString() only on kErrorNone; (c) ToString grows before writing the terminator. NOT decided: separator/Pop logic producing well-formed text, round-trip equality, Stack::Grow's own arithmetic (trusted post-condition)."),
+  note='Trusted: clang 14 front end; post-condition of Stack::Grow; writer contracts (cross-referenced to C07/C08/C09 evidence); node type invariant for the inner kind switch.',
+  design='5/C06'),
+ 'C07': dict(
+  category='proof',
+  technique='exact big-integer table verification, exhaustive evaluation of approximation formulas over the double exponent range (E5); must-dominance with case split (E2); interval analysis of the table index (E3); sibling-agreement rule on interval endpoints (E9)',
+  text=("Decides: (a) all rows of the Pow10CeilSig table equal ceil(10^k 2^-r); (b) the two log approximations are exact for every binary exponent a double can have (2046 values) and every induced k; (c) the table index is in range; "
+        "(d) Ctz10 equals the decimal digit count at every power-of-ten boundary; (e) every positive-length return of F64toa has stored '.' or went through a formatter that stores '.'/'e' on all paths, Inf/NaN return 0; "
+        "(f) closed-form maximum length <= 32 and <= the serializer reserve; (g) both rounding-interval endpoints are adjusted by the same parity c&1. NOT decided: shortest/closest/round-trip (Schubfach interval arithmetic is value level)."),
+  note='Trusted: clang 14 front end and constant evaluator; Python big integers / fractions.',
+  design='5/C07'),
+ 'C09': dict(
+  category='proof',
+  technique='exact table verification against RFC 8259 section 7 (E5); exhaustive evaluation of the page guard and tail mask over their finite domains; interval analysis (E3); closed-form reserve check',
+  text=("Decides: (a) kNeedEscaped/kQuoteTab for all 256 bytes; (b) length bound 6n+2; (c) the serializer's reserve covers the worst transient extent for the configuration's vector width; "
+        "(d) in the production parse the direct tail read is taken only when no full-vector load can leave the page of the string's last byte - the guard expression is evaluated for every (page offset, tail length) pair - "
+        "the bounce buffer is large enough, the tail mask equals 2^nb-1 for every nb, and with sanitizer macros the over-read branch is absent; (e) the vector loop bound equals the load width. "
+        "NOT decided: that the bytes between the quotes are exactly the escaped input."),
+  note='Trusted: clang 14 front end; vector load/store widths (sv/primitives.py); PAGE_SIZE 4096.',
+  design='5/C09'),
 }
 NA_REASON = {
  'C19': 'Agreement with a recursive merge model over (document, text) pairs; no structural clause that is a necessary condition without mirroring the handler code (DESIGN.md section 7).',
